@@ -6,7 +6,7 @@
    - handle lists travel with id lists of the same length
    The table of exported functions is regenerated from the source (Generated/Ffi.v). *)
 From Coq Require Import List String ZArith Bool.
-From AV Require Import Model.VTypes Model.Store.
+From AV Require Import Model.VTypes Model.Store Model.Encode.
 Import ListNotations.
 Open Scope string_scope.
 
@@ -41,3 +41,21 @@ Definition load_typed (m : list (nat * obj)) (h ty : nat) : option obj :=
 (* AnoncredsObjectList::load + refs: every handle live and of the type *)
 Definition load_list (m : list (nat * obj)) (hs : list nat) (ty : nat) : option (list obj) :=
   fold_right (fun h acc => match load_typed m h ty, acc with Some o, Some l => Some (o :: l) | _, _ => None end) (Some []) hs.
+
+(* _encoded_credential_values: names, raw values and OPTIONAL encoded values are three index-aligned lists *)
+Fixpoint enc_values (names raws : list string) (encs : list (option string)) : list (string * (string * string)) :=
+  match names, raws with
+  | n :: ns, r :: rs => (n, (r, match hd None encs with Some e => e | None => encode r end)) :: enc_values ns rs (tl encs)
+  | _, _ => []
+  end.
+Definition enc_values_call (names raws : list string) (encs : list (option string)) : option (list (string * (string * string))) :=
+  match names with
+  | [] => None
+  | _ => if Nat.eqb (List.length names) (List.length raws) then Some (enc_values names raws encs) else None
+  end.
+(* FfiList<i32> of registry indices: `as u32` *)
+Definition index_cast (i : Z) : Z := (i mod 4294967296)%Z.
+(* _nonrevoke_interval_override: grouped by registry; a later entry for the same (registry, requested bound) replaces an earlier one *)
+Definition ovr_find (l : list (string * Z * Z)) (rid : string) (req : Z) : option Z :=
+  option_map snd (find (fun e : string * Z * Z => String.eqb (fst (fst e)) rid && Z.eqb (snd (fst e)) req) (rev l)).
+
